@@ -41,6 +41,8 @@ RunBlock   == /\ IsEvent("run")
 
 Children   == Stateless("children", ChildrenOK(E))
 ParentComp == Stateless("parentcomp", ParentComposeOK(E))
+ChildrenBig == Stateless("childrenbig", ChildrenBigOK(E))
+Ancestors  == Stateless("ancestors", AncestorsOK(E))
 ChildComp  == Stateless("childcomp", ChildrenComposeOK(E))
 LevelBlock == /\ IsEvent("level")
               /\ LET ok == LevelBlockOK(E, st.last) IN Judge(ok) /\ st' = IF ok THEN Advance(E.ids) ELSE st
@@ -52,6 +54,7 @@ WorldEv    == Stateless("world", WorldOK(E))
 Compact8   == Stateless("compact8", Compact8OK(E))
 Compact10  == Stateless("compact10", Compact10OK(E))
 CompactPair == Stateless("compactpair", CompactPairOK(E))
+BigCompact == Stateless("bigcompact", BigCompactOK(E))
 
 AdvanceKeys(xs) == [st EXCEPT !.lastKey = IF Len(xs) > 0 THEN TriKey(xs[Len(xs)].tri) ELSE st.lastKey,
                               !.count = st.count + Len(xs)]
@@ -119,8 +122,8 @@ GoldenLookup == Stateless("goldenlookup", GoldenLookupOK(E))
 TraceNext ==
   \/ Reset \/ Codec \/ DecodeEv \/ HexFmtEv \/ HexParseEv
   \/ SortedBlock \/ AncPair \/ RunBlock
-  \/ Children \/ ParentComp \/ ChildComp \/ LevelBlock \/ LevelEnd
-  \/ Uncompact \/ WorldEv \/ Compact8 \/ Compact10 \/ CompactPair
+  \/ Children \/ ChildrenBig \/ Ancestors \/ ParentComp \/ ChildComp \/ LevelBlock \/ LevelEnd
+  \/ Uncompact \/ WorldEv \/ Compact8 \/ Compact10 \/ CompactPair \/ BigCompact
   \/ Anchors \/ AnchorsPin \/ AnchorsEnd \/ RelConfig \/ RelFact \/ CoverFact \/ RelEnd \/ ChildGeom
   \/ QuintMap \/ QuintMapPin \/ Call
   \/ ProjStep \/ Pair \/ Purity \/ Instances
